@@ -540,28 +540,40 @@ func evaluate(c *common.Check, cases []*Case, results []*Result, keep bool) {
 			}
 		}
 		frontier = nil
-		failedKids := map[*Result]int{}
+		kidsOf := map[*Result][]*Result{}
+		var parents []*Result
 		for i, kr := range runAll(c, kids, keep, true) {
 			if kr == nil {
 				continue
 			}
-			evals++
 			stages["iso-"+kr.Stage()]++
-			if kr.OK() {
-				if kr.Resolvers >= 1 {
-					nontrivial[filesHash(kr.Case.Files)+"/"+hash(kr.Case.Config.YAML())] = true
-				}
-				continue
+			if kr.OK() && kr.Resolvers >= 1 {
+				nontrivial[filesHash(kr.Case.Files)+"/"+hash(kr.Case.Config.YAML())] = true
 			}
-			failedKids[parent[kids[i].ID]]++
-			frontier = append(frontier, kr)
+			pr := parent[kids[i].ID]
+			if _, ok := kidsOf[pr]; !ok {
+				parents = append(parents, pr)
+			}
+			kidsOf[pr] = append(kidsOf[pr], kr)
 		}
-		seenParent := map[*Result]bool{}
-		for _, k := range kids {
-			pr := parent[k.ID]
-			if !seenParent[pr] && failedKids[pr] == 0 {
-				seenParent[pr] = true
+		for _, pr := range parents {
+			var failed []*Result
+			sameCause := true
+			for _, kr := range kidsOf[pr] {
+				if !kr.OK() {
+					failed = append(failed, kr)
+					sameCause = sameCause && kr.Stage() == pr.Stage() && kr.ErrKey() == pr.ErrKey()
+				}
+			}
+			switch {
+			case len(failed) == 0:
+				// every part passes on its own: an interaction between atoms
 				report(c, "naming-packed:"+pr.Case.Schema+":"+pr.Stage()+":"+pr.ErrKey(), pr)
+			case len(failed) == len(kidsOf[pr]) && len(failed) > 1 && sameCause:
+				// every part fails exactly like the whole: the cause is not a particular name
+				report(c, "naming-packed:"+pr.Case.Schema+":"+pr.Stage()+":"+pr.ErrKey(), pr)
+			default:
+				frontier = append(frontier, failed...)
 			}
 		}
 	}
